@@ -344,6 +344,11 @@ Loop:
 				case ActionSkip:
 					if !isLeaving {
 						_, path = pop(path)
+						if sstack == nil {
+							// skipping the root: nothing was pushed, so there is
+							// nothing to leave either
+							break Loop
+						}
 						continue
 					}
 				case ActionUpdate:
